@@ -2,6 +2,7 @@ package rt
 
 import (
 	"fmt"
+	"sort"
 	"strings"
 	"sync"
 	"testing"
@@ -627,5 +628,136 @@ func TestC14BuiltinIterators(t *testing.T) {
 				}
 			}
 		})
+	})
+}
+
+// parallel consumption of the built-in range iterators (run with -race by ./check): every goroutine ranges over ITS OWN
+// strings, slices, maps, channels and integers through seq.New*Iter, many times; each drain must equal the native range
+// (maps: as a multiset) and the race detector must stay silent. State shared between iterator objects (a free list, a
+// cache, a pooled cursor) is touched here from several goroutines at once.
+func TestC14ParallelBuiltinIterators(t *testing.T) {
+	c := coll("C14")
+	c.rule("parallel built-in iterators: 4..8 goroutines, each repeatedly ranging over its own string/slice/map(8 entries)/chan/int via seq.New*Iter; every drain equals the native range (maps as multisets), race detector silent")
+	var last *Replay
+	defer func() {
+		if last != nil {
+			violation(t, last)
+		}
+	}()
+	var mu sync.Mutex
+	rapid.Check(t, func(rt *rapid.T) {
+		g := rapid.IntRange(4, 8).Draw(rt, "goroutines")
+		rounds := rapid.IntRange(20, 60).Draw(rt, "rounds")
+		size := rapid.IntRange(1, 8).Draw(rt, "size")
+		var wg sync.WaitGroup
+		start := make(chan struct{})
+		for gi := 0; gi < g; gi++ {
+			wg.Add(1)
+			go func(gi int) {
+				defer wg.Done()
+				defer func() {
+					if r := recover(); r != nil {
+						mu.Lock()
+						last = &Replay{Property: "C14", Kind: "parallel-builtin-iterators", Input: map[string]any{"goroutines": g, "rounds": rounds, "size": size},
+							What: fmt.Sprintf("goroutine %d: a built-in iterator over the goroutine's own collection panicked: %v", gi, r)}
+						mu.Unlock()
+					}
+				}()
+				<-start
+				fail := func(kind string, got, want []string) {
+					mu.Lock()
+					defer mu.Unlock()
+					if last == nil {
+						last = &Replay{Property: "C14", Kind: "parallel-builtin-iterators", Input: map[string]any{"goroutines": g, "rounds": rounds, "size": size, "kind": kind},
+							What: fmt.Sprintf("goroutine %d: %s iterator over the goroutine's own collection produced %v, the native range %v", gi, kind, got, want), Got: got, Want: want}
+					}
+				}
+				for r := 0; r < rounds; r++ {
+					base := gi*1000 + r
+					// map
+					m := map[int]int{}
+					for i := 0; i < size; i++ {
+						m[base*16+i] = i
+					}
+					var want, got []string
+					for k, v := range m {
+						want = append(want, fmt.Sprint(k, v))
+					}
+					for it := seq.NewMapIter(m); it.MoveNext(); {
+						got = append(got, fmt.Sprint(it.Current().Key, it.Current().Val))
+					}
+					sort.Strings(want)
+					sort.Strings(got)
+					if fmt.Sprint(got) != fmt.Sprint(want) {
+						fail("map", got, want)
+						return
+					}
+					// string
+					s := strings.Repeat("aé\xff€", size)[:size+gi%3]
+					want, got = nil, nil
+					for k, v := range s {
+						want = append(want, fmt.Sprint(k, v))
+					}
+					for it := seq.NewStringIter(s); it.MoveNext(); {
+						got = append(got, fmt.Sprint(it.Current().Key, it.Current().Val))
+					}
+					if fmt.Sprint(got) != fmt.Sprint(want) {
+						fail("string", got, want)
+						return
+					}
+					// slice
+					xs := make([]int, size)
+					for i := range xs {
+						xs[i] = base + i
+					}
+					want, got = nil, nil
+					for k, v := range xs {
+						want = append(want, fmt.Sprint(k, v))
+					}
+					for it := seq.NewSliceIter(xs); it.MoveNext(); {
+						got = append(got, fmt.Sprint(it.Current().Key, it.Current().Val))
+					}
+					if fmt.Sprint(got) != fmt.Sprint(want) {
+						fail("slice", got, want)
+						return
+					}
+					// chan
+					ch := make(chan int, size)
+					for i := 0; i < size; i++ {
+						ch <- base + i
+					}
+					close(ch)
+					want, got = nil, nil
+					for i := 0; i < size; i++ {
+						want = append(want, fmt.Sprint(base+i))
+					}
+					for it := seq.NewChanIter((<-chan int)(ch)); it.MoveNext(); {
+						got = append(got, fmt.Sprint(it.Current().Key))
+					}
+					if fmt.Sprint(got) != fmt.Sprint(want) {
+						fail("chan", got, want)
+						return
+					}
+					// int
+					want, got = nil, nil
+					for i := range size {
+						want = append(want, fmt.Sprint(i))
+					}
+					for it := seq.NewIntegerIter(size); it.MoveNext(); {
+						got = append(got, fmt.Sprint(it.Current().Key))
+					}
+					if fmt.Sprint(got) != fmt.Sprint(want) {
+						fail("int", got, want)
+						return
+					}
+				}
+			}(gi)
+		}
+		close(start)
+		wg.Wait()
+		c.eval(fmt.Sprint("parallel-builtin", g, rounds, size), true, "parallel-builtin-iterators")
+		if last != nil {
+			rt.Fatalf("%s", last.What)
+		}
 	})
 }
